@@ -6,7 +6,7 @@ from sexp import parse, show
 lines = open(sys.argv[1]).read().split('\n')
 ln = int(sys.argv[2])
 name, case, impl = lines[ln].split('\t')
-out = subprocess.run([os.path.join(os.path.dirname(__file__), '../coq/Extract/driver'), 'print'], input=lines[ln] + '\n', capture_output=True, text=True).stdout
+out = subprocess.run([os.environ.get('DRIVER', os.path.join(os.path.dirname(__file__), '../coq/Extract/driver')), 'print'], input=lines[ln] + '\n', capture_output=True, text=True).stdout
 m = parse(out.strip())
 i = parse(impl)
 c = parse(case)
